@@ -3,6 +3,7 @@ package fractal
 import (
 	"context"
 	"fmt"
+	"io"
 	"sync"
 	"sync/atomic"
 	"time"
@@ -194,13 +195,21 @@ func (ls *LocalSuperior) RemoveTask(id uuid.UUID) {
 
 func (ls *LocalSuperior) submitCollectorMsg(ctx context.Context, resp *CollectorMsg) (err error) {
 	ls.taskCacheLock.Lock()
-	defer ls.taskCacheLock.Unlock()
 	v, ok := ls.taskCache.Get(resp.Msg.ID())
+	ls.taskCacheLock.Unlock()
 	if !ok {
 		// TODO: maybe return error
 		return nil
 	}
 	ch := v.(chan *CollectorMsg)
+	// The send may wait for the reader (10 slots). It must not hold taskCacheLock meanwhile,
+	// or RemoveTask/AddTask and every other report wait with it. RemoveTask closes the
+	// channel: a send that was waiting then panics, which means "task removed".
+	defer func() {
+		if recover() != nil {
+			err = io.ErrClosedPipe
+		}
+	}()
 	select {
 	case <-ctx.Done():
 		err = ctx.Err()
